@@ -144,3 +144,9 @@ Theorem C07_grown_row_no_loss : forall d ds d' v,
   survives (grown_loop d ds) (FromArr d' v) = true.
 Proof. exact grown_row_no_loss. Qed.
 Print Assumptions C07_grown_row_no_loss.
+
+(* TypeBlocks.append's update of the cached row dtype, READ FROM THE SOURCE AST on every run, is the step the model
+   folds in C07_grown_row_no_loss *)
+Theorem C07_grown_step_source : forall acc d, gen_grown_step acc d = grown_step acc d.
+Proof. exact gen_grown_step_eq. Qed.
+Print Assumptions C07_grown_step_source.
